@@ -289,6 +289,24 @@ func call(p *parserDef, b []byte) (res callRes) {
 	return
 }
 
+// diffSig: signature of a content difference. All differences caused by the
+// unsigned seconds byte of time.UnmarshalBinary share one signature.
+func diffSig(kind, typ, field string) string {
+	if strings.HasSuffix(field, negSecField) {
+		return "C09:time-blob:negative-second-offset"
+	}
+	return "C09:" + kind + ":" + typ + ":" + field
+}
+
+const negSecWhat = " [zone offset negative with a seconds part: BlockHeaderToPb/GroupToPbHeader carry times as time.MarshalBinary, whose version-2 form is decoded with an unsigned seconds byte (go1.23 time.UnmarshalBinary), so every serialise/parse pass moves the offset and the JSON-based hash]"
+
+func negWhat(field string) string {
+	if strings.HasSuffix(field, negSecField) {
+		return negSecWhat
+	}
+	return ""
+}
+
 func sigOf(p *parserDef, site string) string { return "C09:" + p.name + ":panic:" + site }
 
 func less(a, b []byte) bool {
@@ -368,7 +386,7 @@ func (e *engine) one(p *parserDef, h hostile, l lcnt) int {
 		default:
 			l["parsed_fixedpoint_checks_"+p.typ]++
 			if f != "" {
-				e.r.Violation("C09:fixedpoint-parsed:"+p.typ+":"+f, fmt.Sprintf("value parsed by %s changes under one more serialise/parse pass at %s: %s", p.name, f, d),
+				e.r.Violation(diffSig("fixedpoint-parsed", p.typ, f), fmt.Sprintf("value parsed by %s changes under one more serialise/parse pass at %s: %s%s", p.name, f, d, negWhat(f)),
 					Case{Kind: "bytes", Parser: p.name, Hex: h.b, Note: h.note})
 			}
 		}
@@ -458,10 +476,26 @@ func (e *engine) subsets(p *parserDef, m message, label string, masks []uint64, 
 			cul[m[i].name] = build(mask)
 		}
 	}
+	// shields: fields whose absence makes the parser give up before it dereferences anything
+	shield := uint64(0)
+	if culprit != 0 {
+		c0 := uint(0)
+		for culprit&(1<<c0) == 0 {
+			c0++
+		}
+		for i := range m {
+			if uint(i) == c0 {
+				continue
+			}
+			if k, ok := single[full&^(1<<c0)&^(1<<uint(i))]; ok && res[k] != resPanic && reqMask&(1<<uint(i)) == 0 {
+				shield |= 1 << uint(i)
+			}
+		}
+	}
 	unexplained := 0
 	var ex string
 	for i, mask := range masks {
-		want := mask&reqMask == reqMask && (full&^mask)&culprit != 0
+		want := mask&reqMask == reqMask && (full&^mask)&culprit != 0 && (full&^mask)&shield == 0
 		if (res[i] == resPanic) != want {
 			unexplained++
 			if ex == "" {
@@ -476,8 +510,14 @@ func (e *engine) subsets(p *parserDef, m message, label string, masks []uint64, 
 		}
 	}
 	if len(names) > 0 {
-		e.r.Note("%s [%s]: panics exactly when one of {%s} is absent (and the required fields are present); outcomes not explained by that rule: %d %s",
-			p.name, label, strings.Join(names, ","), unexplained, ex)
+		sh := []string{}
+		for i := range m {
+			if shield&(1<<uint(i)) != 0 {
+				sh = append(sh, m[i].name)
+			}
+		}
+		e.r.Note("%s [%s]: panics exactly when one of {%s} is absent (required fields present; no panic when {%s} is absent: the parser gives up earlier); outcomes not explained by that rule: %d %s",
+			p.name, label, strings.Join(names, ","), strings.Join(sh, ","), unexplained, ex)
 		if wrap == nil {
 			e.mu.Lock()
 			for _, rec := range e.panics {
@@ -673,7 +713,7 @@ func roundTrip(r *mon.Run, cd *codec, x interface{}, producible bool, c Case, l 
 		l["roundtrip_"+cd.typ]++
 		l["hash_comparisons"]++
 		if f, d := cd.diff(x, y); f != "" {
-			r.Violation("C09:roundtrip:"+cd.typ+":"+f, fmt.Sprintf("%s(%s(x)) differs from x at %s: %s", cd.uName, cd.mName, f, d), c)
+			r.Violation(diffSig("roundtrip", cd.typ, f), fmt.Sprintf("%s(%s(x)) differs from x at %s: %s%s", cd.uName, cd.mName, f, d, negWhat(f)), c)
 			return
 		}
 	}
@@ -696,7 +736,7 @@ func roundTrip(r *mon.Run, cd *codec, x interface{}, producible bool, c Case, l 
 	l["fixedpoint_"+cd.typ]++
 	l["hash_comparisons"]++
 	if f, d := cd.diff(y, y2); f != "" {
-		r.Violation("C09:fixedpoint:"+cd.typ+":"+f, fmt.Sprintf("second serialise/parse pass changes %s: %s", f, d), c)
+		r.Violation(diffSig("fixedpoint", cd.typ, f), fmt.Sprintf("second serialise/parse pass changes %s: %s%s", f, d, negWhat(f)), c)
 	}
 	if string(b) == string(b2) {
 		l["reencoding_identical"]++
